@@ -58,8 +58,14 @@ def run_X1(chk):
     # every H[a, b] = X.vdot(w): X is V[a] (basis vector as bra)
     stores = [n for n in ast.walk(loop) if isinstance(n, ast.Assign) and isinstance(n.targets[0], ast.Subscript) and A.text(n.targets[0].value) == Hn]
     n_ov = 0
+    inl0 = A.Inliner(fn)
+    # a temporary that holds the overlap recorded under H[a, j] is the same value as H[a, j]
+    same_as = {}
     for st in stores:
-        v = st.value
+        if isinstance(st.value, ast.Name):
+            same_as[st.value.id] = _sub_text(st.targets[0])
+    for st in stores:
+        v = inl0.expand(st.value) if isinstance(st.value, ast.Name) else st.value
         key = st.targets[0].slice
         if isinstance(v, ast.Call) and A.callee_attr(v) == "vdot" and isinstance(v.func, ast.Attribute):
             n_ov += 1
@@ -98,6 +104,8 @@ def run_X1(chk):
             if ok:
                 il = par[par[ap[0]]]
                 e = ap[0].args[0]
+                if isinstance(e, ast.UnaryOp) and isinstance(e.op, ast.USub) and isinstance(e.operand, ast.Name) and e.operand.id in same_as:
+                    e = ast.UnaryOp(op=ast.USub(), operand=ast.parse(same_as[e.operand.id], mode="eval").body)
                 ok = isinstance(il, ast.For) and isinstance(il.iter, ast.Call) and A.call_name(il.iter) == "range" and len(il.iter.args) == 1 \
                     and _sub_text(il.iter.args[0]) == f"{j}+1" and isinstance(e, ast.UnaryOp) and isinstance(e.op, ast.USub) \
                     and _sub_text(e.operand) == f"{Hn}[{A.text(il.target)},{j}]" \
